@@ -534,6 +534,8 @@ def rule_ed_sem(ctx: RuleContext, p: Program, rid: str) -> None:
         me = possem.Obj('Editor', {'_parser': possem.Obj('Parser', {}, 'parser')}, 'editor')
 
         def edit(v: Any, key: str, tag: str) -> str:
+            if isinstance(v, dict) and key not in v:
+                return key            # the session did not reach that file: the single-session scenarios report it
             mo = v[key] if isinstance(v, dict) else v
             mo.f['text'] = str(mo.f['text']) + tag
             return key
@@ -556,6 +558,8 @@ def rule_ed_sem(ctx: RuleContext, p: Program, rid: str) -> None:
         except possem.Raised as ex:
             problems.setdefault(outer, f'{show}: raises {ex}')
             continue
+        if any(entry_ in problems for entry_ in (outer, inner)):
+            continue                  # already reported by a simpler scenario
         want = dict(files)
         want['d/b.bean' if outer == 'edit_file_recursive' else 'd/a.bean'] += '+outer'
         want['e/y.bean' if inner == 'edit_file_recursive' else 'e/x.bean'] += '+inner'
